@@ -19,7 +19,7 @@ def run(tier):
                            what="histories of 3 operations over 12 kinds (the 6 of the quick tier + AsAwkwardArray + Select with a shared Python lambda object, Where, SelectMany, Select with a history constant in the lambda, "
                                 "Select building a dict/tuple), every parent choice"),
                 chrun.SJob("vlib.sh.c11", "c11k4", base.parts(125), 1500,
-                           what="histories of 4 operations over 5 kinds (Select, MetaData({}), QMetaData, execute, Where with the shared one-line def), every parent choice")]
+                           what="histories of 4 operations over 5 kinds (Select, MetaData({}), QMetaData, execute, Where with the shared one-line def), every parent choice for the first two steps, one of the two newest streams for the last two")]
     r, so = base.run_s(PROP, tier, "model_checking", jobs,
                        explanation="bounded model checking of derive/execute histories by symbolic execution (CrossHair/z3): operation codes and parents are solver-split, "
                                    "the whole library path (parse, sugar, type following, fix-ups, metadata cleaning) runs traced",
